@@ -53,48 +53,6 @@ WALL_MS = int(os.environ.get("PYVC_WALL_MS", "60000"))
 CVC5 = os.environ.get("PYVC_CVC5", "/usr/bin/cvc5")
 
 
-def path_lemmas():
-    lem = spec.arith_lemmas()
-    lem += spec.array_axioms()
-    return lem
-
-
-def discharge(hyps, goal, lem, rlimit=RLIMIT, want_model=True):
-    """-> (status, backend, rlimit_used, seconds, model or None, smt2 text on failure)"""
-    t0 = time.time()
-    base = list(hyps)
-    neg = z3.Not(goal)
-    s = z3.Solver()
-    s.set("rlimit", rlimit)
-    s.set("timeout", WALL_MS)
-    for h in base:
-        s.add(h)
-    for l in lem:
-        s.add(l)
-    s.add(neg)
-    r = s.check()
-    used = 0
-    try:
-        st = s.statistics()
-        for k in st.keys():
-            if k == "rlimit count":
-                used = int(st.get_key_value(k))
-    except Exception:
-        pass
-    dt = time.time() - t0
-    if r == z3.unsat:
-        return "proved", "z3", used, dt, None, None
-    if r == z3.sat:
-        return "refuted", "z3", used, dt, s.model() if want_model else None, s.to_smt2()
-    # unknown: second opinion
-    smt2 = s.to_smt2()
-    st2 = try_cvc5(smt2)
-    dt = time.time() - t0
-    if st2 == "unsat":
-        return "proved", "cvc5", used, dt, None, None
-    return "undecided", "z3+cvc5" if st2 else "z3", used, dt, None, smt2
-
-
 def try_cvc5(smt2):
     if not os.path.exists(CVC5):
         return None
@@ -113,7 +71,28 @@ def try_cvc5(smt2):
         os.unlink(path)
 
 
-def run_variant(repo, world, variant, want_paths=False):
+def finish(variant, ex, r, pid, outcome):
+    """post-process one proof result of the executor into a JSON-able record"""
+    o = {"name": "%s/%s/%s" % (variant.name, pid, r["name"]), "status": r["status"], "backend": r["backend"],
+         "time": r["time"]}
+    if r["status"] == "undecided" and r.get("smt2"):
+        if try_cvc5(r["smt2"]) == "unsat":
+            o["status"], o["backend"] = "proved", "cvc5"
+    if o["status"] != "proved":
+        o["smt2"] = r.get("smt2")
+        o["pc"] = r.get("pc")
+        o["reason"] = r.get("reason")
+        o["outcome"] = outcome[0] if outcome[0] == "return" else repr(outcome[1])
+        m = r.get("z3model")
+        if m is not None:
+            try:
+                o["model"] = variant.witness(m, ex)
+            except Exception as e:   # witness extraction must never hide the failure
+                o["model"] = {"witness-error": repr(e)}
+    return o
+
+
+def run_variant(repo, world, variant, deadline_s=None):
     """Symbolically execute every path of the variant and discharge all
     obligations.  -> dict (JSON-able)."""
     t0 = time.time()
@@ -137,38 +116,37 @@ def run_variant(repo, world, variant, want_paths=False):
             goals = variant.check(ex, outcome)
             npaths += 1
             pid = "p%d" % npaths
-            hyps = list(ex.hyps)
-            allob = [(n, g, k) for (n, g, k) in ex.obls] + [(n, g, len(hyps)) for (n, g) in goals]
-            lem = path_lemmas()
-            for (n, g, k) in allob:
-                status, backend, used, dt, model, smt2 = discharge(hyps[:k], g, lem)
-                o = ObligationResult("%s/%s/%s" % (variant.name, pid, n), status, backend, used, round(dt, 4))
-                if status != "proved":
-                    o.smt2 = smt2
-                    o.path = [str(c) for c in ex.pc][:60]
-                    if model is not None:
-                        try:
-                            o.model = variant.witness(model, ex)
-                        except Exception as e:  # witness extraction must never hide the failure
-                            o.model = {"witness-error": repr(e)}
-                    o.extra = {"outcome": outcome[0] if outcome[0] == "return" else repr(outcome[1])}
-                res["obligations"].append(o.to_json())
+            for (n, g) in goals:
+                ex.oblige(n, g)
+            for r in ex.results:
+                res["obligations"].append(finish(variant, ex, r, pid, outcome))
             res["inlined"] |= ex.inlined
             res["contracts_used"] |= ex.used_contracts
             res["notes"] |= set(ex.notes)
         except PathAbort as pa:
             res["aborted"][pa.why] = res["aborted"].get(pa.why, 0) + 1
             res["notes"] |= set(ex.notes)
+            # obligations raised before the cut still count
+            for r in ex.results:
+                res["obligations"].append(finish(variant, ex, r, "cut", ("return", None)))
         except Unsupported as u:
             res["unsupported"] = str(u)
             break
         except RecursionError:
             res["unsupported"] = "python recursion limit in the executor"
             break
+        except (z3.Z3Exception, TypeError, AttributeError, KeyError, IndexError, ValueError, AssertionError) as e:
+            # a defect of the engine on this function: reported as out of reach, never as a verdict
+            tb = traceback.format_exc().strip().split("\n")
+            res["unsupported"] = "engine error: %r at %s" % (e, " | ".join(x.strip() for x in tb[-4:-1]))
+            break
         if not ex.next_path():
             break
         if npaths > 20000:
             res["unsupported"] = "path explosion (>20000)"
+            break
+        if deadline_s is not None and time.time() - t0 > deadline_s:
+            res["unsupported"] = "time budget of %ds exceeded after %d paths" % (deadline_s, npaths)
             break
     res["paths"] = npaths
     res["seconds"] = round(time.time() - t0, 3)
